@@ -24,7 +24,8 @@ EXPLANATION = (
     "D5 tables/panic_ledger.json keyed (function, kind, coarse operand shape) -> reason. Premises checked here: P-RESERVED-ARM (the slot "
     "lookup in reserve_or_steal happens only on the reserved arm), R-RESERVED-CLASS-STABLE (no writer changes the class of a reserved "
     "tree), P-CHANGE-ID (a tree id from the API is bounds-checked before it indexes the tree array), P-EMPTY (initialisation handles an "
-    "empty table array)."
+    "empty table array), P-SORTED-BUFFER (guards of the slicing in SortedBuffer::add), and the rules the ledger cites as premises of "
+    "counter assertions: R-BALANCE-T / R-BALANCE (C04), R-RESERVE-BEFORE-LOWER (C15), R-UNRESERVE-OWNED (C03)."
 )
 
 TR = "llfree::trees::Tree::"
@@ -173,3 +174,11 @@ def run(rep, programs):
     p_reserved_arm(rep, prog)
     r_reserved_class_stable(rep, prog)
     p_change_id(rep, prog)
+    from props import c16
+    c16.p_sorted_buffer_guards(rep, prog)
+    # premises the ledger cites for counter arithmetic and for the `Unreserve failed` / overflow assertions
+    from props import c03, c04, c15
+    c04.r_balance_t(rep, prog)
+    c04.r_balance(rep, prog)
+    c15.r_reserve_before_lower(rep, prog)
+    c03.r_unreserve_owned(rep, prog)
